@@ -42,12 +42,13 @@ def slim(e):
     return e
 
 
-def validate(ctx, trace, what, tag, max_rounds=8):
-    """Trace_Cli on a trace; every rejected event becomes a violation keyed by its abstract point, then is removed
-    and the rest is validated again (so that one bad point does not hide the others)."""
+def validate(ctx, trace, what, tag, max_rounds=8, module="Trace_Cli", keyf=None, spec="Cli.tla", prefix="cli:", ext=False):
+    """Trace_Cli (Trace_CliKhI for the khi/ckhi extension) on a trace; every rejected event becomes a violation keyed by
+    its abstract point, then is removed and the rest is validated again (so that one bad point does not hide the others)."""
+    keyf = keyf or point_key
     cur, n_rej, first = trace, 0, None
     for rnd in range(max_rounds):
-        r = ctx.tlc_trace("Trace_Cli", "Trace_Cli.cfg", cur, timeout=3000, tag="%s_%d" % (tag, rnd))
+        r = ctx.tlc_trace(module, module + ".cfg", cur, timeout=3000, tag="%s_%d" % (tag, rnd))
         if first is None:
             first = r
         if r["accepted"]:
@@ -59,11 +60,11 @@ def validate(ctx, trace, what, tag, max_rounds=8):
             ctx.trace_verdict(r, cur, what, key_prefix="cli-trace")
             break
         exp = "an error result" if ev.get("lib", {}).get("res") != "ok" else "the library's table"
-        ctx.violation("cli:" + point_key(ev),
-                      "%s: `ykh %s` exited %s with stdout class %s; Cli.tla demands otherwise at this point (%s): stdout=%r stderr=%r lib=%s" % (
-                          what, " ".join(ev.get("argv", [])), ev.get("code"), ev.get("out"), exp, ev.get("stdout", "")[:300], ev.get("stderr", "")[:120],
+        ctx.violation(prefix + keyf(ev),
+                      "%s: `ykh %s` exited %s with stdout class %s; %s demands otherwise at this point (%s): stdout=%r stderr=%r lib=%s" % (
+                          what, " ".join(ev.get("argv", [])), ev.get("code"), ev.get("out"), spec, exp, ev.get("stdout", "")[:300], ev.get("stderr", "")[:120],
                           json.dumps(ev.get("lib", {}))[:400]),
-                      {"event": ev, "argv": ev.get("argv"), "input": ev.get("input"), "trace_file": trace, "line": at, "tlc_log": r["log"]})
+                      {"event": ev, "argv": ev.get("argv"), "input": ev.get("input"), "trace_file": trace, "line": at, "tlc_log": r["log"], "ext": ext})
         lines = open(cur).read().splitlines()
         del lines[at - 1]
         cur = ctx.path("%s_minus_%d.ndjson" % (tag, rnd + 1))
@@ -133,6 +134,168 @@ def binding_selftest(ctx, trace, modes):
     ctx.log("binding self-test: %d corrupted traces, all rejected at the corrupted event" % len(res))
 
 
+# ---------------------------------------------------------------------------------------------------------------------
+# Extension: the sub-commands khi and ckhi (spec/sys/CliKhI.tla, CliKhIEv.tla; harness/src/c20i.rs)
+EXT_ACTIONS = ["DoIErr", "DoITable", "DoIInternal", "DoIMirrorRun"]
+EXT_CORRUPTIONS = ["rank", "errtable", "drop", "class", "ssi", "mirrorpair", "gens", "code", "kind"]
+
+
+def fl_str(fl):
+    return "".join(k for k in "gasd" if fl.get(k)) + ("" if fl.get("f") == "unicode" else ":f=%s" % fl.get("f"))
+
+
+def ext_point_key(e):
+    return "%s:%s:c=%s%s%s:%s:%s" % (e["cmd"], e["ctype"], cv_str(e["cv"]), ":m" if e["mirror"] else "", ":r" if e["reduced"] else "", fl_str(e["fl"]), e["ic"])
+
+
+def ext_corrupt(lines, mode):
+    """One changed field of one recorded khi/ckhi event; returns (new lines, line no) or None."""
+    out = list(lines)
+    evs = [json.loads(l) for l in lines]
+    for k in range(len(lines) // 4, len(lines)):
+        e = copy.deepcopy(evs[k])
+        ok_tab = e["lib"]["res"] == "ok" and e["exit"] == "zero" and e["table"]["cells"]
+        exact = ok_tab and not (e["lib"]["kind"] == "GenTable" and e["stdout"].count("\n") < 3)
+        if mode == "rank" and ok_tab and e["lib"]["kind"] != "GenTable" and any(c["rank"] >= 1 for c in e["lib"]["cells"]):
+            [c for c in e["lib"]["cells"] if c["rank"] >= 1][0]["rank"] += 1
+        elif mode == "errtable" and e["exit"] == "nonzero" and e["out"] == "none":
+            e["out"] = "table2d"
+        elif mode == "drop" and ok_tab and e["lib"]["kind"] != "GenTable" and len(e["table"]["cells"]) >= 2:
+            e["table"]["cells"].pop()
+            e["table"]["zeros"] += 1
+        elif mode == "class" and ok_tab and e["ic"] == "sympd":
+            e["ic"] = "asympd"                      # the harness claims a class the code does not have
+        elif mode == "ssi" and ok_tab and len(e["lib"]["pair"]) == 2 and e["extra"]["ssi"]:
+            e["extra"]["ssi"][-1] += 2              # a printed s value that is not the library's
+        elif mode == "mirrorpair" and ok_tab and len(e["lib"]["pair"]) == 2 and any(
+                x["input"] == e["input"] and x["mirror"] != e["mirror"] and x["reduced"] == e["reduced"] and x["lib"]["ring"] == e["lib"]["ring"] and len(x["lib"].get("pair", [])) == 2
+                for x in evs[:k]):
+            e["lib"]["pair"] = [v + 2 for v in e["lib"]["pair"]]      # consistent with its own output, but no longer (-s1,-s0) of the mirror image
+            e["extra"]["ssi"] = [v + 2 for v in e["extra"]["ssi"]]
+        elif mode == "gens" and ok_tab and e["fl"]["g"]:
+            e["extra"]["gens"] += 1
+        elif mode == "code" and ok_tab and e["inp"]["kind"] == "name":
+            e["lib"]["code"][0], e["lib"]["code"][1] = e["lib"]["code"][1], e["lib"]["code"][0]     # the library's table entry is not the specification's
+        elif mode == "kind" and ok_tab and e["lib"]["kind"] == "Seq1D":
+            e["lib"]["kind"] = "Table2D"
+        else:
+            continue
+        out[k] = json.dumps(e, separators=(",", ":"), ensure_ascii=True)
+        return out, k + 1
+    return None
+
+
+def ext_selftest(ctx, trace, modes, gen_path, tab_path, work):
+    """The binding of the extension is real: a corrupted field of a recorded event is rejected at that event by
+    Trace_CliKhI, and a corrupted expected value of the TLC-computed cone table is reported by the replay."""
+    lines = open(trace).read().splitlines()
+    res = []
+    saved = (ctx.cov["states"], ctx.cov["transitions"])
+    for m in modes:
+        c = ext_corrupt(lines, m)
+        if c is None:
+            res.append({"corruption": m, "skipped": "no event of that shape"})
+            continue
+        new, at = c
+        p = ctx.path("xcorrupt_%s.ndjson" % m)
+        open(p, "w").write("\n".join(new[:at]) + "\n")
+        r = ctx.tlc_trace("Trace_CliKhI", "Trace_CliKhI.cfg", p, timeout=3000, tag="xcorrupt_" + m)
+        if r["accepted"] or r["at"] != at:
+            raise vlib.ToolError("binding self-test (khi/ckhi): trace with corrupted field '%s' at event %d was %s" % (m, at, "accepted" if r["accepted"] else "rejected at %s" % r["at"]))
+        res.append({"corruption": m, "event": at, "rejected_at": r["at"]})
+        try:
+            os.remove(p)
+        except OSError:
+            pass
+    # spec -> impl: one rank of the table TLC computed from the definition is changed; the replay must report it
+    tabs = [json.loads(l) for l in open(tab_path)]
+    t0 = next(t for t in tabs if t["name"] == "3_1")
+    row = next(r for r in t0["tab"] if r["f"] == "khibi" and not r["red"])
+    row["ranks"][0][2] += 1
+    bad_tab = ctx.path("xcorrupt_tables.ndjson")
+    open(bad_tab, "w").write("\n".join(json.dumps(t) for t in tabs) + "\n")
+    few = ctx.path("xcorrupt_points.ndjson")
+    pts = [l for l in open(gen_path) if '"cmd":"khi"' in l and '"ctype":"F2"' in l and '"ic":"sinv"' in l and '"class":"Table2D"' in l]
+    open(few, "w").write("".join(pts))
+    summ, mism, _ = ctx.yv("c20i", "replay", "--tier", ctx.tier, "--in", few, "--tables", bad_tab, "--out", ctx.path("xcorrupt_trace.ndjson"), "--ykh", YKH, "--work", work, timeout=1200)
+    hits = [m for m in mism if "contradicts the definition" in m["what"]]
+    if not hits:
+        raise vlib.ToolError("binding self-test (khi/ckhi): a corrupted rank of the TLC-computed cone table was not noticed by the replay (%d points)" % len(pts))
+    res.append({"corruption": "one bigraded rank of the TLC-computed table of 3_1 +1", "points_replayed": len(pts), "mismatches": len(hits)})
+    ctx.cov["states"], ctx.cov["transitions"] = saved
+    ctx.log("binding self-test (khi/ckhi): %d corruptions, all noticed" % len([r for r in res if "skipped" not in r]))
+    return res
+
+
+def extension_khi(ctx, work):
+    """khi / ckhi: MC of the extended argument-space machine (action census), A (product printed by TLC + cone tables
+    computed by TLC, replayed into the binary), B (random instances validated by Trace_CliKhI). Results go to
+    coverage.extension_khi_ckhi; disagreements become violations keyed `cli-khi:<point>`."""
+    T = ctx.thorough
+    ext = {}
+    mc_err = []
+
+    def mc():
+        try:
+            cfg = "MC_CliKhI.thorough.cfg" if T else "MC_CliKhI.cfg"
+            gen, dist, acts = ctx.tlc_mc("MC_CliKhI", cfg, workers=4, must_cover=EXT_ACTIONS, timeout=2400)
+            ext["mc"] = {"module": "MC_CliKhI", "cfg": cfg, "distinct_states": dist, "states_generated": gen, "action_census": {a: acts.get(a, [0, 0])[1] for a in EXT_ACTIONS}}
+        except Exception as ex:
+            mc_err.append(ex)
+    th = threading.Thread(target=mc)
+    th.start()
+    try:
+        path, objs = ctx.tlc_gen("Gen_CliKhI", "Gen_CliKhI.thorough.cfg" if T else "Gen_CliKhI.quick.cfg", workers=3)
+        tab_path, tabs = ctx.tlc_gen("Gen_KhICone", "Gen_KhICone.clit.cfg" if T else "Gen_KhICone.cli.cfg", workers=3, timeout=2400, out_name="gen_cone_tables.ndjson")
+        trace_a = ctx.path("xtrace_a.ndjson")
+        summ, mism, _ = ctx.yv("c20i", "replay", "--tier", ctx.tier, "--in", path, "--tables", tab_path, "--out", trace_a, "--ykh", YKH, "--work", work,
+                               "--per", 3 if T else 1, timeout=3000)
+        rp = summ["replay"]
+        for m in mism[:200]:
+            ctx.violation("cli-khi:" + m["key"], "`ykh %s`: %s" % (" ".join(m["argv"]), m["what"]), dict(m, ext=True))
+        _, rej_a = validate(ctx, trace_a, "khi/ckhi product replay", "xtrace_a", module="Trace_CliKhI", keyf=ext_point_key, spec="CliKhI.tla", prefix="cli-khi:", ext=True)
+        ext["spec_to_impl"] = dict(rp, events_validated_by_Trace_CliKhI=rp["runs"], events_rejected=rej_a)
+        trace_b = ctx.path("xtrace_b.ndjson")
+        summ, mism_b, _ = ctx.yv("c20i", "record", "--seed", ctx.seed, "--tier", ctx.tier, "--in", path, "--tables", tab_path, "--out", trace_b, "--ykh", YKH, "--work", work, timeout=3000)
+        rec = summ["record"]
+        for m in mism_b[:200]:
+            ctx.violation("cli-khi:" + m["key"], "`ykh %s`: %s" % (" ".join(m["argv"]), m["what"]), dict(m, ext=True))
+        _, rej_b = validate(ctx, trace_b, "khi/ckhi random instances", "xtrace_b", module="Trace_CliKhI", keyf=ext_point_key, spec="CliKhI.tla", prefix="cli-khi:", ext=True)
+        ext["impl_to_spec"] = dict(rec, events_rejected=rej_b)
+        ctx.cov["evaluations"] += rp["runs"] + rec["events"]
+        ctx.cov["distinct_nontrivial"] += rp["distinct_tables"] + rec["distinct_tables"]
+        if rej_a == 0 and not mism:
+            ext["binding_selftest"] = ext_selftest(ctx, trace_a, EXT_CORRUPTIONS if T else ["rank", "errtable", "class", "mirrorpair"], path, tab_path, work)
+    finally:
+        th.join()
+    if mc_err:
+        raise mc_err[0]
+    ext["points_in_product"] = len(objs)
+    ext["outcome_classes"] = {c: sum(1 for o in objs if o["exp"]["class"] == c) for c in ("Error", "Table2D", "Seq1D", "GenTable", "Tex")}
+    ext["cone_tables_from_tlc"] = [{"name": t["name"], "mirror": all(c["t"] == "Xm" for c in t["d"]), "tables": len(t["tab"])} for t in tabs]
+    ext["rule"] = ("MC_CliKhI: every point of {khi,ckhi} x -t {Z,Q,F2,F3,Gauss,Eisen,no type} x -c values x -m x -r x all 16 combinations of -g -a -s -d x -f {unicode,tex,no format} x concrete LINK arguments "
+                   "(table names, names outside the table, garbage, a file, PD codes whose class PDClass computes) with every admissible observable; second invocation with -m toggled for the pair relation; "
+                   "theorems of the table (characteristic 2 only, -m irrelevant, khi within ckhi, flags monotone, bad input is an error, ...) as ASSUMEs; action census via TLC coverage. "
+                   "A: one run of the freshly built binary per point printed by Gen_CliKhI; stdout (unicode or TeX table + sections) lexed and compared with a direct library call "
+                   "(InvLink::load / sinv_knot_from_code, KhIComplex::new, homology / into_bigraded / gen_grid, ssi_invariants) Rust-side and by Trace_CliKhI, and with the tables TLC computed from the definition "
+                   "(cone of 1+tau, KhICone.tla) for the small table diagrams: exactly over F2, by universal coefficients at x=0,1 over F2[H], F2[T], as a lower bound for the generators of ckhi. "
+                   "B: seeded random instances (all table names, re-listed / re-numbered / shifted codes, catalogue codes, option spellings), validated by Trace_CliKhI only.")
+    ext["assumptions"] = [
+        "unicode and TeX format; --log is not exercised (it writes to stdout); the text of the -g / -a / -d sections is not compared, only which sections appear and how many entries they have "
+        "(-g: one list per degree with a non-zero printed group; -a: one entry per canonical cycle of the library's complex; -s: one value per canonical cycle, equal to ssi_invariants for knots)",
+        "TeX cells are read back through a fixed transliteration into the notation of the unicode cells (harness), then compared like those",
+        "a LINK argument is a name of the built-in table or a PD code the loader accepts (labels 1..2n, every label twice, no crossing listed twice, the involution of the labels carries crossings onto crossings); "
+        "everything else - including names of the ordinary catalogue and files - must be an error result; PD-shaped JSON with a label not occurring exactly twice must be an error result",
+        "for ckhi with (h,t) not homogeneous the printed complex is not determined by the parameters: well-formedness, ring and Euler characteristic only (as for ckh in the main part)",
+        "a failure of the library itself (panic in the direct call, e.g. a symmetric-looking code that is no diagram) is an internal failure: the spec then demands an error result",
+        "expected tables from the definition are available for the table codes TLC can evaluate in the time budget (3_1, 4_1 and mirror images; thorough: up to 6 crossings) and any re-listing of their crossings",
+    ]
+    lines = open(trace_a).read().splitlines()
+    pick = [json.loads(l) for l in lines if '"pair":[' in l and '"pair":[]' not in l and '"ok"' in l][:1]
+    ext["sample"] = [slim(e) for e in pick]
+    return ext
+
+
 def run(ctx):
     work = ctx.path("inputs")
     # MC (the whole option product + theorems of the table + grammar round trip) runs while the binary is being exercised
@@ -145,10 +308,20 @@ def run(ctx):
             mc_err.append(ex)
     th = threading.Thread(target=mc)
     th.start()
+    ext_res, ext_err, ext_th = [], [], None
+
+    def ext_run():
+        try:
+            ext_res.append(extension_khi(ctx, ctx.path("inputs_khi")))
+        except Exception as ex:
+            ext_err.append(ex)
     try:
         # A: TLC prints the product with the demanded outcome and library call; the harness runs the binary at every point
         path, objs = ctx.tlc_gen("Gen_Cli", "Gen_Cli.thorough.cfg" if ctx.thorough else "Gen_Cli.quick.cfg", workers=4)
         build_ykh(ctx)
+        # extension (khi, ckhi): runs next to the main part once the binary exists
+        ext_th = threading.Thread(target=ext_run)
+        ext_th.start()
         trace_a = ctx.path("trace_a.ndjson")
         summ, mism, _ = ctx.yv("c20", "replay", "--tier", ctx.tier, "--in", path, "--out", trace_a, "--ykh", YKH, "--work", work,
                                "--per", 3 if ctx.thorough else 1, timeout=3000)
@@ -173,8 +346,13 @@ def run(ctx):
             binding_selftest(ctx, trace_a, CORRUPTIONS if ctx.thorough else ["rank", "errtable", "drop"])
     finally:
         th.join()
+        if ext_th is not None:
+            ext_th.join()
     if mc_err:
         raise mc_err[0]
+    if ext_err:
+        raise ext_err[0]
+    ctx.cov["extension_khi_ckhi"] = ext_res[0]
     ctx.cov["rule"] = ("MC: every point of {kh,ckh} x {Z,Q,F2,F3} x (all -c token sequences of length<=2 over ints/non-canonical 0/rationals/H/T/junk, + triples) x -m x -r x 10 input classes "
                        "with every admissible observable; theorems of the decision table and round trip of the cell grammar as ASSUMEs. "
                        "A: one run of the freshly built binary per product point printed by Gen_Cli (thorough: 3 inputs per table point), stdout lexed and compared with a direct library call "
@@ -183,7 +361,8 @@ def run(ctx):
     ctx.cov["points_in_product"] = len(objs)
     ctx.cov["outcome_classes"] = {c: sum(1 for o in objs if o["exp"]["class"] == c) for c in ("Error", "Table2D", "Seq1D", "GenTable")}
     ctx.assumptions += [
-        "only the default unicode format and the options -t -c -m -r are exercised (-f tex, -g/-a/-s/-d output and the khi/ckhi commands are outside the property)",
+        "main part (kh, ckh): only the default unicode format and the options -t -c -m -r are exercised; the khi/ckhi commands with their options -g -a -s -d -f are the subject of the extension "
+        "(coverage.extension_khi_ckhi, which lists its own assumptions)",
         "PD-shaped JSON in which every label occurs exactly twice is taken to be a diagram (validity of such codes is C18's subject); codes with an odd label count must be an error result",
         "integer coefficient values are kept within |n| <= 12 and diagrams within 10 crossings (machine-integer envelope of the i64 build)",
         "ckh prints the generators of a complex simplified by Gaussian elimination, which is not determined by the parameters (it differs between runs over Z and for inhomogeneous (h,t)); "
@@ -196,6 +375,35 @@ def run(ctx):
     ctx.add_samples([slim(e) for e in pick], limit=2)
 
 
+def replay_ext(ctx, path, rp):
+    """A stored khi/ckhi violation: the same argv is run again on the current tree and validated by Trace_CliKhI (and Rust-side
+    when the point printed by TLC is stored)."""
+    argv = rp.get("argv")
+    rc, out = vlib.sh([YKH] + argv, timeout=120, env={"RUST_BACKTRACE": "0"})
+    print("$ ykh %s\n%s\n(exit %d)" % (" ".join(repr(a) for a in argv), out, rc))
+    point = rp.get("point")
+    if not point:
+        ev = rp["event"]
+        point = {k: ev[k] for k in ("cmd", "ctype", "cv", "mirror", "reduced", "fl", "ic")}
+        point.update({"exp": {"class": "Error", "why": "?"}, "mutated": True, "force_lib": True, "supported": True, "parsed": True,
+                      "ring": ev["lib"]["ring"], "h": ev["lib"]["h"], "t": ev["lib"]["t"], "kind": ev["lib"]["kind"], "mode": "exact"})
+    point = dict(point)
+    point["argv"] = argv
+    one = ctx.path("xone.ndjson")
+    open(one, "w").write(json.dumps(point) + "\n")
+    tr = ctx.path("xone_trace.ndjson")
+    tab_path, _ = ctx.tlc_gen("Gen_KhICone", "Gen_KhICone.cli.cfg", workers=3, timeout=1200, out_name="gen_cone_tables.ndjson")
+    summ, mism, _ = ctx.yv("c20i", "replay", "--in", one, "--tables", tab_path, "--out", tr, "--ykh", YKH, "--work", ctx.path("inputs_khi"), "--force-input", rp.get("input", ""))
+    r = ctx.tlc_trace("Trace_CliKhI", "Trace_CliKhI.cfg", tr, tag="xreplay_one")
+    for m in mism:
+        print("still differs:", m["what"])
+    if mism or not r["accepted"]:
+        print("VIOLATION property=%s replay=%s" % (ctx.pid, path))
+        return 1
+    print("the stored invocation now conforms to CliKhI.tla")
+    return 0
+
+
 def replay(ctx, path):
     """bin/check C20 --replay <file>: re-runs the stored invocation on the current tree; exit 1 if it still violates."""
     obj = json.load(open(path))
@@ -203,6 +411,8 @@ def replay(ctx, path):
     rp = obj.get("replay", {})
     build_ykh(ctx)
     ctx.build_harness()
+    if rp.get("ext"):
+        return replay_ext(ctx, path, rp)
     argv = rp.get("argv")
     if argv:
         rc, out = vlib.sh([YKH] + argv, timeout=120, env={"RUST_BACKTRACE": "0"})
